@@ -57,7 +57,7 @@ def forward(view: str, ids: List[int], dup: bool) -> List[Any]:
     return out
 
 
-def run_prefix(n: int, hist: List[Dict[str, Any]], k: int, salt: int, dup: bool = False) -> Tuple[List[str], Dict[int, Any]]:
+def run_prefix(n: int, hist: List[Dict[str, Any]], k: int, salt: int, dup: bool = False, statement: bool = False) -> Tuple[List[str], Dict[int, Any]]:
     """Apply the first k actions; returns (discrepancies at action k, live queries)."""
     import jsonpath
 
@@ -73,8 +73,9 @@ def run_prefix(n: int, hist: List[Dict[str, Any]], k: int, salt: int, dup: bool 
         try:
             if h["op"] in ("limit", "skip", "tail"):
                 r = getattr(q, name)(h["c"])
-                if r is not None:
-                    qs[h["q"]] = r  # whichever object the operation hands back is the query from now on
+                if r is not None and not statement:
+                    qs[h["q"]] = r  # chained style: whichever object the operation hands back is the query from now on
+                # (statement style: `q.tail(2)` on its own line, then `q` again - the documentation says these methods return self)
             elif h["op"] == "take":
                 r = q.take(h["c"])
                 qs[2 + sum(x["created"] for x in hist[:j])] = r
@@ -126,15 +127,15 @@ def replay(rec: Dict[str, Any]) -> List[Tuple[str, Dict[str, Any], str]]:
     # behaviour when the chain bound is larger; here the final state is compared after the full
     # chain and return values after each prefix.
     bad: List[str] = []
-    for dup in (False, True):      # once over distinct nodes, once over a match list that visits every node twice
-        tagd = "revisited-nodes:" if dup else ""
+    for dup, statement in ((False, False), (True, False), (False, True)):      # distinct nodes; every node visited twice; statement style
+        tagd = "revisited-nodes:" if dup else "statement-style:" if statement else ""
         for k in range(1, len(hist) + 1):
-            b, qs = run_prefix(n, hist, k, salt, dup)
+            b, qs = run_prefix(n, hist, k, salt, dup, statement)
             if b:
                 bad = [f"step{k}:{tagd}{x}" for x in b]
                 break
         if not bad:
-            b, qs = run_prefix(n, hist, len(hist), salt, dup)
+            b, qs = run_prefix(n, hist, len(hist), salt, dup, statement)
             for q, alive in enumerate(rec["live"], 1):
                 if not alive:
                     continue
